@@ -105,6 +105,8 @@ class Position
 
     std::string san_without_check(Move move) const;
 
+    int first_history_index() const;
+
     Color _current_side;
 
     uint8_t _half_move_counter;
